@@ -17,6 +17,11 @@ extern "C" void harness_lexer(void) {
   LexerPeek* st = (LexerPeek*)&lexer;
   uint32_t off = nondet_u32();
   VF_ASSUME(off <= n);
+#ifdef VF_IDENT
+  // keyword obligation: the buffer is one identifier of lower-case letters, lexed from offset 0
+  VF_ASSUME(off == 0);
+  for (unsigned i = 0; i < n; i++) VF_ASSUME(buf[i] >= 'a' && buf[i] <= 'z');
+#endif
   st->bufferPos = buf + off;
   // the column is 0 exactly at the start of a line (representation invariant of the lexer)
   bool lineStart = (off == 0) || buf[off - 1] == '\n' || buf[off - 1] == '\r';
